@@ -5,6 +5,7 @@ import (
 	"go/ast"
 	"go/token"
 	"go/types"
+	"strings"
 
 	"gtsverif/core"
 )
@@ -15,6 +16,7 @@ import (
 // only thing Repair writes into a feature is its location; the argument is copied).
 func RepairRules(p *core.Prog, r *core.Report) {
 	r.Rule("GROUP-KEY", "the grouping key of gts.Repair is computed from both the feature's Key and its Props, so features that differ in either are never in one group", 1)
+	r.Rule("GROUP-KEY-INJECTIVE", "the text the grouping key of gts.Repair is formatted into tells different (Key, Props) pairs apart: every string operand, and every operand that is a (nested) slice of strings, is written with %q - with %v / %s the values run together, `/note=\"a b\"` and `/note=\"a\" /note=\"b\"` both print as [[note a b]], and features with different qualifiers land in one group", 1)
 	r.Rule("FORCE-SOURCE", "the `force` flag handed to LocationList.Push is exactly `Key == \"source\"` of a feature of the group", 1)
 	r.Rule("GROUP-ALL", "the loop of gts.Repair that files feature indices into the group map does so unconditionally for every element (no continue/break, the map append at the top level of the body)", 1)
 	r.Rule("KEEP-ALL", "every iteration of the loop over the groups appends indices of the group to the keep list exactly once on every path (the `len(group) > 0` wrapper counts as always taken)", 1)
@@ -59,6 +61,7 @@ func RepairRules(p *core.Prog, r *core.Report) {
 		})
 		if hasKey && hasProps {
 			r.Ok("GROUP-KEY", "gts.Repair", p.Pos(rhs.Pos()), "grouping key depends on Key and Props")
+			groupKeyInjective(p, r, info, rhs)
 		} else {
 			r.Bad("GROUP-KEY", "gts.Repair", p.Pos(rhs.Pos()), "features are grouped without looking at both their key and their qualifiers: unrelated features that happen to abut are merged")
 		}
@@ -284,4 +287,99 @@ func mapAppend(info *types.Info, st ast.Stmt) *ast.IndexExpr {
 		return nil
 	}
 	return ix
+}
+
+// groupKeyInjective decides GROUP-KEY-INJECTIVE on the expression the grouping
+// key is computed by: a Sprintf, or a concatenation of constants,
+// strconv.Quote(..) and Sprintf pieces.
+func groupKeyInjective(p *core.Prog, r *core.Report, info *types.Info, rhs ast.Expr) {
+	key := "gts.Repair|key-format"
+	const why = "strings and lists of strings run together (`/note=\"a b\"` and `/note=\"a\" /note=\"b\"` both give [[note a b]]), so Repair puts features with different qualifiers into one group and merges them when they abut (Repair of {misc_feature 1..>10 /note=\"a b\", misc_feature <11..20 /note=\"a\" /note=\"b\"} returns the single feature 1..20)"
+	var leaves []ast.Expr
+	var walk func(e ast.Expr)
+	walk = func(e ast.Expr) {
+		if b, ok := ast.Unparen(e).(*ast.BinaryExpr); ok && b.Op == token.ADD {
+			walk(b.X)
+			walk(b.Y)
+			return
+		}
+		leaves = append(leaves, ast.Unparen(e))
+	}
+	walk(rhs)
+	for _, l := range leaves {
+		if _, isConst := core.ConstString(info, l); isConst {
+			continue
+		}
+		lc, isCall := l.(*ast.CallExpr)
+		if isCall && core.IsCallTo(info, lc, "strconv.Quote") {
+			continue
+		}
+		if isCall && core.IsCallTo(info, lc, "fmt.Sprintf") && len(lc.Args) >= 1 {
+			op, verb, und := unquotedOperand(info, lc)
+			switch {
+			case und != "":
+				r.Und("GROUP-KEY-INJECTIVE", key, p.Pos(lc.Pos()), und)
+				return
+			case op != nil:
+				r.Bad("GROUP-KEY-INJECTIVE", key, p.Pos(op.Pos()), fmt.Sprintf("`%s` is written into the grouping key with %%%c: %s", types.ExprString(op), verb, why))
+				return
+			}
+			continue
+		}
+		if len(leaves) == 1 {
+			r.Und("GROUP-KEY-INJECTIVE", key, p.Pos(rhs.Pos()), "the grouping key is not built by fmt.Sprintf or a concatenation of quoted pieces; the rule cannot tell whether it separates different qualifier lists")
+			return
+		}
+		r.Bad("GROUP-KEY-INJECTIVE", key, p.Pos(l.Pos()), fmt.Sprintf("the piece `%s` of the grouping key is neither a constant, strconv.Quote(..) nor a Sprintf with %%q: %s", types.ExprString(l), why))
+		return
+	}
+	r.Ok("GROUP-KEY-INJECTIVE", key, p.Pos(rhs.Pos()), "every string-valued operand is quoted")
+}
+
+// unquotedOperand returns the first string-valued operand of a Sprintf call
+// that is not written with %q (nil when all are), or a reason why the call
+// cannot be decided.
+func unquotedOperand(info *types.Info, c *ast.CallExpr) (ast.Expr, byte, string) {
+	format, ok := core.ConstString(info, c.Args[0])
+	if !ok {
+		return nil, 0, "the format of the grouping key is not a constant"
+	}
+	var verbs []byte
+	for i := 0; i < len(format); i++ {
+		if format[i] != '%' {
+			continue
+		}
+		j := i + 1
+		for j < len(format) && strings.IndexByte("+-# 0123456789.*[]", format[j]) >= 0 {
+			j++
+		}
+		if j < len(format) {
+			if format[j] != '%' {
+				verbs = append(verbs, format[j])
+			}
+			i = j
+		}
+	}
+	ops := c.Args[1:]
+	if len(verbs) != len(ops) {
+		return nil, 0, "verbs and operands of the grouping-key format do not pair up"
+	}
+	stringy := func(t types.Type) bool {
+		for {
+			switch u := t.Underlying().(type) {
+			case *types.Slice:
+				t = u.Elem()
+				continue
+			case *types.Basic:
+				return u.Info()&types.IsString != 0
+			}
+			return false
+		}
+	}
+	for i, op := range ops {
+		if t := info.TypeOf(op); t != nil && stringy(t) && verbs[i] != 'q' {
+			return op, verbs[i], ""
+		}
+	}
+	return nil, 0, ""
 }
